@@ -3,6 +3,8 @@
   model.  Built as a `lean_exe` (nothing it imports uses Mathlib).
 -/
 import Edn.Model.Dump
+import Edn.Model.Arena
+import Edn.Model.Registry
 
 open Edn.Model
 
@@ -76,6 +78,56 @@ def runNum (cfg : Cfg) (args : List String) : String :=
   | ["gcd", a, b] => toString (Int.ofNat (ratioGcd a.toInt! b.toInt!))
   | _ => "bad-num"
 
+def runArena (toks : List String) : String :=
+  let sizes := toks.map fun t =>
+    if t.startsWith "M" then sizeMax - (t.drop 1).toNat! else t.toNat!
+  let mallocOk (n : Nat) : Bool := n ≤ 2 ^ 40
+  let (rs, a) := Arena.run mallocOk Arena.create sizes
+  -- capacity of the block a region lives in: look it up in the final state
+  let caps := a.blocks.map (·.cap)
+  let outs := rs.map fun r =>
+    match r with
+    | none => "null "
+    | some g => s!"b{g.blk}+{g.off}/{caps.getD g.blk 0} "
+  String.join outs ++ s!"blocks={a.blocks.length}"
+
+def parseOp (t : String) : Char × String × Nat :=
+  let op := t.front
+  let body := (t.drop 1).toString
+  match body.splitOn "=" with
+  | [k, h] => (op, k, h.toNat!)
+  | _ => (op, body, 0)
+
+def runRegistry (toks : List String) : String :=
+  let rec go (r : Registry) (names : List String) : List String → List String
+    | [] => []
+    | t :: ts =>
+      let (op, k, h) := parseOp t
+      let names := if names.contains k then names else names ++ [k]
+      let kb := k.toUTF8.toList
+      let (r', tag) :=
+        if op == '+' then (r.register kb (if h == 1 then 1 else 2), "1")
+        else if op == '-' then (r.unregister kb, "u")
+        else (r, "q")
+      let obs := ",".intercalate (names.map fun n => s!"{n}={(r'.lookup n.toUTF8.toList).getD 0}")
+      (tag ++ "{" ++ obs ++ "} ") :: go r' names ts
+  String.join (go Registry.create [] toks)
+
+def runExternal (toks : List String) : String :=
+  let rec go (c : Chain Nat) (ids : List Nat) : List String → List String
+    | [] => []
+    | t :: ts =>
+      let (op, k, h) := parseOp t
+      let id := k.toNat!
+      let ids := if ids.contains id then ids else ids ++ [id]
+      let (c', tag) :=
+        if op == '+' then (c.register id (if h == 1 then 1 else 2), "1")
+        else if op == '-' then (c.unregister id, "u")
+        else (c, "q")
+      let obs := ",".intercalate (ids.map fun n => s!"{n}={(c'.lookup n).getD 0}")
+      (tag ++ "{" ++ obs ++ "} ") :: go c' ids ts
+  String.join (go [] [] toks)
+
 def step (cfg : Cfg) (line : String) : Cfg × String :=
   match line.trimAscii.toString.splitOn " " with
   | ["C", n] => (cfgOfBits n.toNat!, s!"cfg {n}")
@@ -86,6 +138,9 @@ def step (cfg : Cfg) (line : String) : Cfg × String :=
   | ["S", name, start, hex] => (cfg, runScan name start.toNat! (unhex hex))
   | ["L", hex] => (cfg, runLines (unhex hex))
   | "N" :: rest => (cfg, runNum cfg rest)
+  | "A" :: rest => (cfg, runArena rest)
+  | "G" :: rest => (cfg, runRegistry rest)
+  | "X" :: rest => (cfg, runExternal rest)
   | [""] => (cfg, "")
   | _ => (cfg, "bad-line")
 
